@@ -183,6 +183,12 @@ fn root_model(v: &BigUint, d: usize) -> BigUint {
         // 1 <= v < 2^d: the root is 1 (also keeps the bisection bounds below from overflowing for huge degrees)
         return BigUint::one();
     }
+    if v.bits() > 20_000 {
+        // giant values: bisection would need tens of thousands of big multiplications; num-bigint's own root, verified
+        let r = v.nth_root(d as u32);
+        assert!(pow_le(&r, d, v) && !pow_le(&(&r + 1u32), d, v), "harness: nth_root is inconsistent");
+        return r;
+    }
     let mut lo = BigUint::one(); // lo^d <= v
     let mut hi = pow2((v.bits() as usize + d - 1) / d + 1); // hi^d > v
     while &hi - &lo > BigUint::one() {
@@ -1359,6 +1365,44 @@ fn c13(r: &Runner) {
         }
         let (pu, _) = (pow2_nbhd(bits), ());
         unary(r, &format!("P({bits}) log2/log10"), bits, &pu, &lg1);
+    }
+    // one GIANT width (65 536 bits = 1024 limbs): root and log start from a floating-point estimate whose absolute error
+    // grows with the bit length; ordinary dense values and perfect powers +- 1, low degrees and ordinary bases
+    if !SWEEP {
+        let bits = 65_536usize;
+        let n = nlimbs(bits);
+        let g = golden(2 * n + 8);
+        let mut vals: Vec<BigUint> = vec![];
+        for k in 0..24usize {
+            // dense values of full length with different leading limbs
+            let mut v: Limbs = (0..n).map(|i| g[(i + 3 * k) % g.len()] ^ (k as u64).wrapping_mul(0x0101_0101_0101_0101)).collect();
+            v[n - 1] = match k % 6 { 0 => u64::MAX, 1 => 1 << 63, 2 => (1 << 63) - 1, 3 => 1, 4 => g[k], _ => 0x5555_5555_5555_5555 };
+            vals.push(big(&v));
+        }
+        for k in 0..6usize {
+            // perfect squares / cubes of dense values, and their neighbours
+            let x: Limbs = (0..n / 2).map(|i| g[(i + 5 * k) % g.len()] | 1).collect();
+            let y: Limbs = (0..n / 3).map(|i| g[(i + 7 * k) % g.len()] | 1).collect();
+            let (x, y) = (big(&x), big(&y));
+            for p in [&x * &x, &y * &y * &y] {
+                vals.extend([&p - 1u32, p.clone(), &p + 1u32]);
+            }
+        }
+        vals.push(pow2(bits) - 1u32);
+        vals.push(pow2(bits - 1));
+        let lv: Vec<Limbs> = vals.iter().map(|v| to_limbs(v, bits)).collect();
+        r.universe(&format!("GIANT U{bits}: root of {} dense values / perfect powers +- 1 with degrees 2, 3, 5, 7, 64; log to bases 3, 10, 2^64-1, 2^1000+1", lv.len()), bits, lv.len(), |i, l| {
+            let a = vu(&lv[i]);
+            l.states(1);
+            for d in [2usize, 3, 5, 7, 64] {
+                exec(l, bits, Op::root, &[a.clone(), V::n(d)]);
+            }
+            for b in [BigUint::from(3u32), BigUint::from(10u32), BigUint::from(u64::MAX), pow2(1000) + 1u32] {
+                exec(l, bits, Op::log, &[a.clone(), V::U(to_limbs(&b, bits))]);
+            }
+            exec(l, bits, Op::log2, &[a.clone()]);
+            exec(l, bits, Op::log10, &[a.clone()]);
+        });
     }
 }
 
